@@ -440,6 +440,8 @@ def rw_generic(s, R, scalar_types=()):
     s = R.sub('std_move', r'(?<![\w.>])move\s*\(', 'VERIF_MOVE(', s)
     s = R.sub('functor_call', r'\b(\w+)\{\}\(', r'\1_call(', s)
     s = R.sub('std_abs', r'(?<![\w.>])abs\s*\(', 'VERIF_ABS(', s)
+    s = R.sub('std_max', r'(?<![\w.>])max\s*\((?=[^)])', 'VERIF_MAX(', s)   # std::max / std::min of two scalars (the namespace is gone by now)
+    s = R.sub('std_min', r'(?<![\w.>])min\s*\((?=[^)])', 'VERIF_MIN(', s)
     s = R.sub('static_assert', r'\bstatic_assert\s*\((?:[^;]|\n)*?\)\s*;', '', s)
     return s
 
@@ -1035,7 +1037,7 @@ def extract_enum(repo, file, name, prefix=None):
             raise ExtractError('enumerator not understood: ' + it)
         val = mm.group(2)
         if val is not None:
-            val = re.sub(r'\b(\w+)\b', lambda x: (prefix + x.group(1)) if re.match(r'^[A-Za-z_]', x.group(1)) and not x.group(1).startswith(('0x', 'U', 'u')) and x.group(1) not in ('U', 'u', 'L') else x.group(1), val)
+            val = re.sub(r'\b(\w+)\b', lambda x: (prefix + x.group(1)) if re.match(r'^[A-Za-z_]', x.group(1)) and not x.group(1).startswith(('0x', 'U', 'u')) and x.group(1) not in ('U', 'u', 'L', 'true', 'false') else x.group(1), val)
         items.append('  %s%s%s' % (prefix, mm.group(1), (' = ' + val) if val is not None else ''))
     under = rw_generic(m.group(1), Rules()).strip() if m.group(1) else 'int'
     return 'enum { \n%s\n};\ntypedef %s %s;\n' % (',\n'.join(items), under, name)
